@@ -195,10 +195,10 @@ class C09(Scenario):
             if not o.ok:
                 raise self.violation(exc_site(o.exc)[0], "eq", "exception:%s" % type(o.exc).__name__,
                                      "comparison of an aggregator with its %s replica raised %s" % (how, o.describe()), si)
-        if e1.value is not True or e2.value is not True:
+        if not bool(e1.value) or not bool(e2.value):
             raise self.violation(prim, "eq", "eq-false-on-equal:%s" % how,
                                  "an aggregator does not compare equal to its %s replica (a == b: %r, b == a: %r)" % (how, e1.value, e2.value), si)
-        if ne.value is not False:
+        if bool(ne.value):
             raise self.violation(prim, "ne", "ne-true-on-equal:%s" % how, "a != b is %r for an aggregator and its %s replica" % (ne.value, how), si)
         w.bump("probe_clean_pair_equal")
 
@@ -211,11 +211,11 @@ class C09(Scenario):
                                      bad.describe(), (e2 if not e1.ok else e1).value), si, detail)
         if not e1.ok:
             return
-        if e1.value is not False or e2.value is not False:
+        if bool(e1.value) or bool(e2.value):
             raise self.violation(prim, "eq", "eq-true-on-different:%s" % kind.split(" ")[0],
                                  "two aggregators whose content differs (%s) compare equal (a == b: %r, b == a: %r)" % (kind, e1.value, e2.value),
                                  si, detail)
-        if ne.ok and ne.value is not True:
+        if ne.ok and not bool(ne.value):
             raise self.violation(prim, "ne", "ne-false-on-different:%s" % kind.split(" ")[0], "a != b is %r for different content (%s)" % (ne.value, kind), si, detail)
 
     def run(self, case, w, R):
@@ -226,7 +226,11 @@ class C09(Scenario):
         if case.get("kind") == "delivery":
             return self.run_delivery(case, w, R)
         h = make_state(self, w, case)
-        doc = json.loads(json.dumps(h.toJson()))
+        try:
+            doc = json.loads(json.dumps(h.toJson()))
+        except (TypeError, ValueError):
+            w.bump("probe_base_state_not_serialisable")  # C04's business (strict JSON)
+            return
         ndoc = observe.normalise(doc)
         root = sp["p"]
         # clean replicas
